@@ -132,6 +132,17 @@ FullAssetFails(W, a) ==
                LET FS == {[ev |-> f[1], lot |-> f[2], amt |-> f[3], proc |-> f[4], cost |-> f[5], gain |-> f[6], long |-> f[7]] :
                             f \in {g \in ToSet(cd.fr_all) : g[1] \in A /\ Day(E[g[1]]) <= W.to}}
                IN ToSet(doc.summary) = Summary(E, FS, FromYear(W.from)) /\ NoRepeat(doc.summary)>>,
+       \* likewise the k/n labels count every fraction of the run dated up to the to-date, and the balances are the account flows up to it
+       <<"C13.fraction_labels_count_history_up_to_to_date",
+            (cd.has_all /\ ~CutAmbiguous(E, A, W.to) /\ \A q \in 1..Len(cd.fr_all) : cd.fr_all[q][1] \in A) =>
+               LET fa    == [q \in 1..Len(cd.fr_all) |-> [ev |-> cd.fr_all[q][1], lot |-> cd.fr_all[q][2]]]
+                   FSall == {q \in 1..Len(fa) : Day(E[fa[q].ev]) <= W.to}
+                   FSwin == {q \in FSall : Day(E[fa[q].ev]) >= W.from}
+               IN BagEq(Map(doc.detail, DetailLabel), SetToSeq({Labels(fa, FSall, q) : q \in FSwin}))>>,
+       <<"C13.account_balances_equal_account_flows",
+            ~CutAmbiguous(E, A, W.to) =>
+               LET L == Ledger(E, A, W.to, 0)
+               IN BagEq(doc.balances, SetToSeq({<<ac, L.bal[ac].acq, L.bal[ac].sent, L.bal[ac].recv, L.bal[ac].fin>> : ac \in DOMAIN L.bal}))>>,
        <<"C13.account_balances_shown", BagEq(doc.balances, cd.bal)>>,
        <<"C13.holder_totals_add_up",
             LET holders == {HolderOf(cd.bal[i][1]) : i \in 1..Len(cd.bal)}
